@@ -362,6 +362,8 @@ pub struct FaultSink {
     ch: Option<Chooser>,
     /// After a fault, keep failing (a broken pipe stays broken).
     sticky: bool,
+    /// Error kinds offered by `ChooseFail` (default: `Other`).
+    kinds: Vec<io::ErrorKind>,
 }
 
 impl FaultSink {
@@ -371,7 +373,14 @@ impl FaultSink {
             mode,
             ch,
             sticky: true,
+            kinds: vec![io::ErrorKind::Other],
         }
+    }
+    /// Error kinds `ChooseFail` chooses among (one menu entry each).
+    pub fn with_kinds(mut self, kinds: Vec<io::ErrorKind>) -> Self {
+        assert!(!kinds.is_empty());
+        self.kinds = kinds;
+        self
     }
     pub fn plain() -> Self {
         Self::new(SinkMode::Plain, None)
@@ -379,6 +388,9 @@ impl FaultSink {
     pub fn not_sticky(mut self) -> Self {
         self.sticky = false;
         self
+    }
+    pub fn is_sticky(&self) -> bool {
+        self.sticky
     }
     pub fn bytes(&self) -> Vec<u8> {
         self.state.lock().unwrap().bytes.clone()
@@ -428,9 +440,9 @@ impl FaultSink {
             },
             SinkMode::ChooseFail => {
                 let ch = self.ch.as_ref().expect("chooser");
-                match ch.dev(if is_flush { "env.flush" } else { "env.write" }, 2) {
+                match ch.dev(if is_flush { "env.flush" } else { "env.write" }, 1 + self.kinds.len()) {
                     0 => SinkAct::All,
-                    _ => SinkAct::Fail(io::ErrorKind::Other),
+                    k => SinkAct::Fail(self.kinds[k - 1]),
                 }
             }
             SinkMode::Choose => {
